@@ -1069,4 +1069,30 @@ theorem tame_spec {env : List Entry} {l out : List PTok} (h : Tame env l out) :
             simpa [List.getD, hla'] using this
 
 
+/-! ## `WFMacro`, decided -/
+
+theorem paramName_head (i : Nat) : (paramName i).toList.head? = some '$' := by
+  simp [paramName, List.replicate_succ]
+
+theorem wfMacro_of_wfB (m : Macro) (h : wfB m = true) : WFMacro m := by
+  unfold wfB at h
+  rw [List.all_eq_true] at h
+  refine ⟨?_, ?_, ?_, ?_⟩
+  · intro t ht hh
+    have := h t ht
+    simp [hh] at this
+  · intro t ht hh
+    have := h t ht
+    simp [hh] at this
+  · intro t ht s hs i hi
+    have := h t ht
+    simp only [hs, bne_iff_ne, ne_eq] at this
+    apply this
+    rw [hi, paramName_head]
+  · intro t ht i hi
+    have := h t ht
+    simp only [hi, Bool.and_eq_true, decide_eq_true_eq] at this
+    exact this
+
+
 end RsslVerif.Lemmas.MacroTameSpec
